@@ -18,6 +18,13 @@ R6  push only if the top slot is occupied, otherwise replace it: in yypush_buffe
     yy_buffer_stack_top is control dependent on the non-null edge of a test of the element
     yy_buffer_stack[yy_buffer_stack_top] (directly, through the yy_current_buffer() macro or the function of that name,
     whose body is checked) - a test of the stack pointer itself does not count.
+R7  a new buffer object is completely initialised: on every evaluated path from the allocation of a struct yy_buffer_state
+    in yy_create_buffer / yy_scan_buffer to the return of that block - callees that receive it are entered - every field
+    the scanner reads anywhere has been stored; a comparison of the fresh block with another pointer is "different".
+R8  yy_buffer_stack is not indexed before it exists: outside the scan context (yylex and what only it calls, the action-only
+    API) an element access is reachable from the function entry only through yyensure_buffer_stack() (or a function that
+    always calls it) or an edge on which the stack / the current buffer tested non-null; unprotected internal functions
+    hand the obligation to their callers.
 """
 import re
 import ir, flow, variants
@@ -487,13 +494,294 @@ def r6(ctx, sc):
                                   '-- with an including file below, its remaining input must still be scanned after the pop')
     return n
 
+# ---------------------------------------------------------------- R7
+
+class FreshEval:
+    """Per-path evaluation of "what happens to a freshly allocated struct yy_buffer_state": follows the block returned by one
+    allocation call through casts, locals and the calls that receive it (callees of the scanner are entered), records the
+    fields stored through it, and decides every comparison of the fresh pointer: against NULL it is non-null (the failure
+    edge is the fatal path), against any other pointer it is different (a fresh allocation aliases nothing that existed
+    before).  Every other branch forks.  Outcome of a path: (fields initialised, the function returns the fresh block)."""
+    F = 'F'
+    def __init__(s, sc, max_states=4000):
+        s.sc = sc; s.nr = sc.prog.noreturn(); s.states = 0; s.max_states = max_states
+    def run(s, fn, root, binds=None, depth=0):
+        """outcomes [(frozenset of field names, returns fresh?)] of fn; root: the allocation call (top level) or None with
+        binds = {param register: F} for an entered callee"""
+        F = s.F; out = set()
+        work = [(fn.entry, 0, None, dict(binds or {}), {}, frozenset(), {})]
+        while work:
+            blk, idx, prev, regs, cells, init, visits = work.pop()
+            s.states += 1
+            if s.states > s.max_states: raise OverflowError('too many paths')
+            visits = dict(visits); visits[blk.name] = visits.get(blk.name, 0) + 1
+            if visits[blk.name] > 2: continue
+            regs = dict(regs); cells = dict(cells)
+            pend = [(regs, cells, init)]        # a call that forks inside the callee multiplies the states of this block
+            for x in blk.ins[idx:]:
+                nxt = []
+                for regs, cells, init in pend:
+                    op = x.op
+                    if op == 'phi':
+                        for v, lab in zip(x.ops, x.cases or ()):
+                            if prev is not None and lab == prev.name and v[0] == 'reg': regs[x.res] = regs.get(v[1])
+                        nxt.append((regs, cells, init)); continue
+                    if op in ('bitcast', 'addrspacecast'):
+                        if x.ops[0][0] == 'reg': regs[x.res] = regs.get(x.ops[0][1])
+                    elif op in ('zext', 'sext', 'trunc'):
+                        if x.ops[0][0] == 'reg' and isinstance(regs.get(x.ops[0][1]), tuple) and regs[x.ops[0][1]][0] == 'bool': regs[x.res] = regs[x.ops[0][1]]
+                    elif op == 'xor':
+                        a = regs.get(x.ops[0][1]) if x.ops[0][0] == 'reg' else None
+                        if isinstance(a, tuple) and a[0] == 'bool' and x.ops[1] == ('int', 1): regs[x.res] = ('bool', 1 - a[1])
+                    elif op == 'getelementptr':
+                        b = regs.get(x.ops[0][1]) if x.ops[0][0] == 'reg' else None
+                        if b == F:
+                            if len(x.ops) == 2 and x.ops[1] == ('int', 0): regs[x.res] = F
+                            elif len(x.ops) == 3 and x.ops[1] == ('int', 0) and x.ops[2][0] == 'int':
+                                regs[x.res] = ('fld', fn.mod.field_name(x.srcty, x.ops[2][1]) or '#%d' % x.ops[2][1])
+                    elif op == 'load':
+                        a = x.ops[0]
+                        if a[0] == 'reg':
+                            d = fn.def_of(a)
+                            if d is not None and d.op == 'alloca': regs[x.res] = cells.get(a[1])
+                    elif op == 'store':
+                        v, a = x.ops
+                        if a[0] == 'reg':
+                            t = regs.get(a[1]); d = fn.def_of(a)
+                            if isinstance(t, tuple) and t[0] == 'fld': init = init | {t[1]}
+                            elif d is not None and d.op == 'alloca': cells[a[1]] = regs.get(v[1]) if v[0] == 'reg' else None
+                    elif op == 'icmp':
+                        ta = regs.get(x.ops[0][1]) if x.ops[0][0] == 'reg' else None
+                        tb = regs.get(x.ops[1][1]) if x.ops[1][0] == 'reg' else None
+                        if x.pred in ('eq', 'ne') and (ta == F or tb == F):
+                            same = (ta == F and tb == F)
+                            regs[x.res] = ('bool', int(same == (x.pred == 'eq')))
+                    elif op in ('call', 'invoke'):
+                        if x is root: regs[x.res] = F
+                        else:
+                            if isinstance(x.callee, str) and x.callee in s.nr: continue          # the path ends in the fatal hook
+                            tags = [regs.get(o[1]) if o[0] == 'reg' else None for o in x.ops]
+                            cn = s.sc.callee(x)
+                            gs = s.sc.fns(cn) if cn else []
+                            gs = [g for g in gs if g.blocks and len(g.params) == len(x.ops)] if F in tags else []
+                            if gs and depth < 5:
+                                g = gs[0]
+                                b2 = {pn: F for (pt, pn), t in zip(g.params, tags) if t == F}
+                                for ginit, gret in s.run(g, None, b2, depth + 1):
+                                    r2 = dict(regs)
+                                    if x.res: r2[x.res] = F if gret else None
+                                    nxt.append((r2, dict(cells), init | ginit))
+                                continue
+                    nxt.append((regs, cells, init))
+                pend = nxt
+                if not pend: break
+            else:
+                pass
+            if not pend: continue
+            t = blk.ins[-1]
+            for regs, cells, init in pend:
+                if t.op == 'ret':
+                    rv = regs.get(t.ops[0][1]) if t.ops and t.ops[0][0] == 'reg' else None
+                    out.add((init, rv == F))
+                elif t.op == 'br':
+                    if t.ops and len(t.targets) == 2:
+                        c = regs.get(t.ops[0][1]) if t.ops[0][0] == 'reg' else None
+                        tg = [t.targets[0] if c[1] else t.targets[1]] if isinstance(c, tuple) and c[0] == 'bool' else list(dict.fromkeys(t.targets))
+                    else: tg = t.targets[:1]
+                    for l in tg: work.append((fn.bmap[l], 0, blk, regs, cells, init, visits))
+                elif t.op == 'switch':
+                    for l in dict.fromkeys([l for _, l in t.cases] + [t.callee]): work.append((fn.bmap[l], 0, blk, regs, cells, init, visits))
+                elif t.op == 'invoke':
+                    work.append((fn.bmap[t.targets[0]], 0, blk, regs, cells, init, visits))
+        return out
+
+CANON_FIELD = {sp: c for c, sps in S.BUF_FIELDS.items() for sp in sps}
+
+def fields_read(sc):
+    """fields of struct yy_buffer_state that some function of the scanner loads"""
+    out = set()
+    for f in sc.mod.functions.values():
+        res = ir.Resolver(f)
+        for x in f.ins:
+            if x.op == 'load':
+                l = res.loc(x.ops[0])
+                if l is not None and l[0] == 'field' and l[1] == 'yy_buffer_state': out.add(l[2])
+    return out
+
+def r7(ctx, sc):
+    """R7: a buffer object is completely initialised when its creator hands it out.  For the allocation of a struct
+    yy_buffer_state in yy_create_buffer and yy_scan_buffer, every path from the allocation to a return of the fresh block -
+    through yy_init_buffer / yy_flush_buffer / yy_switch_to_buffer, which are entered - stores every field that the scanner
+    reads anywhere (FreshEval: comparisons of the fresh block with the current buffer are decided as "different")."""
+    rep = ctx.rep; v = sc.v; n = 0
+    need = fields_read(sc)
+    for canon in ('yy_create_buffer', 'yy_scan_buffer'):
+        for f in sc.fns(canon):
+            roots = []
+            for c in sc.calls(f, 'yyalloc'):
+                if any(u.op == 'bitcast' and u.ops[0] == ('reg', c.res) and 'yy_buffer_state' in str(u.ty) for u in f.ins): roots.append(c)
+            if not roots:
+                if sc.calls(f, canon): continue               # forwarding overload (C++)
+                rep.broken('C11.R7: %s of %s does not allocate a struct yy_buffer_state' % (canon, v.name))
+            for root in roots:
+                try: outs = FreshEval(sc).run(f, root)
+                except OverflowError: rep.broken('C11.R7: %s of %s: too many paths' % (canon, v.name))
+                rets = [i for i, r_ in outs if r_]
+                if not rets: rep.broken('C11.R7: %s of %s never returns the block it allocates' % (canon, v.name))
+                for fld in sorted(need):
+                    n += 1
+                    cf = CANON_FIELD.get(fld, fld)
+                    if all(fld in i for i in rets):
+                        rep.ok('C11.R7', '%s %s: %s is stored on each of the %d evaluated paths that return the new buffer' % (v.name, canon, cf, len(rets)))
+                    else:
+                        got = sorted(CANON_FIELD.get(x, x) for x in set.intersection(*[set(i) for i in rets]))
+                        rep.fail('C11.R7', sc.key('C11.R7', canon, 'uninitialised:' + cf), where(root),
+                                 '%s can return a freshly allocated buffer whose field %s was never stored (the allocator does not clear memory; the scanner reads the field '
+                                 'later); on that path only %s are set.  A comparison of the new block with the current buffer is taken as "different" [variant %s]' % (
+                                     canon, cf, ', '.join(got), v.name), variant=v.describe())
+    return n
+
+# ---------------------------------------------------------------- R8
+
+# functions that run only while a scan is in progress, i.e. after the first-call block of yylex has made sure that a current buffer
+# (and with it the buffer stack) exists; one entry per symbol with the reason
+SCAN_CONTEXT = {
+    'yylex': 'its first-call block creates the stack and the current buffer before anything else; user actions run inside it',
+    'yyinput': 'documented for use in actions only',
+    'yyunput': 'documented for use in actions only',
+    'yyless': 'documented for use in actions (and in section-3 helpers called from actions)',
+    'yyatbol': 'c99/go: function form of the yyatbol() / YY_AT_BOL() macro, documented for use in actions',
+    'verif_s3_less': 'probe helper: section-3 code that calls yyless, called from actions',
+    'main': '%option main: calls yylex only',
+}
+# (a function all of whose callers in the scanner are in the scan context belongs to it as well: yy_get_next_buffer, yyunput_r, yyatbol, ...)
+# functions that are not entry points although they have external linkage in some back end: their callers carry the obligation
+INTERNAL = {
+    'yy_load_buffer_state': 'static in the C scanner, protected member in C++, undocumented in c99/go: called by the buffer API after it has made sure a buffer is current',
+    'yy_init_buffer': 'static in the C scanner, protected member in C++: called by yy_create_buffer / yyrestart',
+}
+
+def stack_exists_edges(sc, f):
+    """CFG edges (block, successor) that are taken only when the buffer stack exists: the non-null edge of a null test of the stack
+    pointer or of the current-buffer value, and the equal edge of a comparison of the current-buffer value with a pointer that is
+    itself known to be non-null there (a local/parameter all of whose null tests have been passed on the non-null side)"""
+    res = ir.Resolver(f); cfg = sc.prog.cfg(f); out = set()
+    helper_ok = all(returns_top_slot(sc, g) for g in sc.fns('yy_current_buffer'))
+    def is_cur(v):
+        v = flow.strip_casts(f, v)
+        d = f.def_of(v)
+        if d is not None and d.op in ('call', 'invoke') and sc.callee(d) == 'yy_current_buffer': return helper_ok
+        return S.is_current_value(sc, f, v, res)
+    def is_stack(v):
+        d = f.def_of(flow.strip_casts(f, v))
+        return d is not None and d.op == 'load' and sc.is_var(res.loc(d.ops[0]), 'yy_buffer_stack')
+    nonnull_edges = {}       # local -> edges on which it was found non-null
+    for b in f.blocks:
+        br = b.ins[-1]
+        bn = flow.branch_on_null(f, br) if br.op == 'br' else None
+        if bn is None: continue
+        if is_stack(bn[0]) or is_cur(bn[0]): out.add((b, f.bmap[bn[2]]))
+        d = f.def_of(flow.strip_casts(f, bn[0]))
+        if d is not None and d.op == 'load' and res.loc(d.ops[0])[0] == 'local': nonnull_edges.setdefault(res.loc(d.ops[0]), set()).add((b, f.bmap[bn[2]]))
+    for b in f.blocks:
+        br = b.ins[-1]
+        if br.op != 'br' or not br.ops: continue
+        for t in br.targets:
+            con = S.edge_constraint(f, br, t)
+            if con is None or con[0] != 'eq': continue
+            for cur, oth in ((con[1], con[2]), (con[2], con[1])):
+                if not is_cur(cur): continue
+                d = f.def_of(flow.strip_casts(f, oth))
+                if d is None or d.op != 'load': continue
+                l = res.loc(d.ops[0])
+                ne = nonnull_edges.get(l)
+                if ne and br not in S.entry_reach(cfg, f, edge_filter=lambda a, c, ne=ne: (a, c) not in ne): out.add((b, f.bmap[t]))
+    return out
+
+def r8(ctx, sc):
+    """R8: the buffer stack is not indexed before it exists.  yy_buffer_stack is NULL until yyensure_buffer_stack() has run, and most
+    of the buffer API may be called before that (yy_create_buffer, yy_delete_buffer, yy_flush_buffer, yyget/yyset_lineno, ...).
+    In every function outside the scan context, an access of an element yy_buffer_stack[..] must not be reachable from the function
+    entry without passing a call that makes the stack exist (yyensure_buffer_stack, or a scanner function that calls it on every
+    path) or an edge on which the stack is known to exist (stack_exists_edges).  A function that has such an unprotected access
+    passes the requirement on to its callers: a call of it is treated like an access."""
+    rep = ctx.rep; v = sc.v
+    fns = [f for f in sc.mod.functions.values() if f.blocks]
+    ensures = {g.name for g in sc.fns('yyensure_buffer_stack')}
+    if not ensures: rep.broken('C11.R8: yyensure_buffer_stack not found in %s' % v.name)
+    cg = sc.callgraph()
+    def callees(f, c):
+        n_ = sc.callee(c)
+        return sc.fns(n_) if n_ else []
+    # functions that make the stack exist on every returning path
+    changed = True
+    while changed:
+        changed = False
+        for f in fns:
+            if f.name in ensures: continue
+            cs = [c for c in f.ins if c.op in ('call', 'invoke') and any(g.name in ensures for g in callees(f, c))]
+            if cs and not any(y.op == 'ret' for y in S.entry_reach(sc.prog.cfg(f), f, avoid=cs)): ensures.add(f.name); changed = True
+    base_ens = {g.name for g in sc.fns('yyensure_buffer_stack')}
+    info = {}
+    for f in fns:
+        if f.name in base_ens: continue
+        res = ir.Resolver(f)
+        acc = [x for x in f.ins if x.op in ('load', 'store') and sc.slot(res.loc(x.ptr))]
+        calls = [c for c in f.ins if c.op in ('call', 'invoke') and callees(f, c)]
+        if not acc and not calls: continue
+        info[f] = (acc, calls, stack_exists_edges(sc, f), [c for c in calls if any(g.name in ensures for g in callees(f, c))])
+    callers = {}
+    for f in fns:
+        for c in f.ins:
+            if c.op in ('call', 'invoke'):
+                for g in callees(f, c): callers.setdefault(g.name, set()).add(f.name)
+    scan = {f.name for f in fns if sc.canon(f) in SCAN_CONTEXT}
+    changed = True
+    while changed:
+        changed = False
+        for f in fns:
+            cs_ = callers.get(f.name, set()) - {f.name}
+            if f.name not in scan and cs_ and cs_ <= scan: scan.add(f.name); changed = True
+    needs = {}           # function name -> first unprotected site
+    changed = True
+    while changed:
+        changed = False
+        for f, (acc, calls, X, ens) in info.items():
+            if f.name in needs: continue
+            sites = acc + [c for c in calls if any(g.name in needs for g in callees(f, c))]
+            if not sites: continue
+            r_ = S.entry_reach(sc.prog.cfg(f), f, avoid=ens, edge_filter=lambda a, b, X=X: (a, b) not in X)
+            bad = [x for x in sites if x in r_]
+            if bad: needs[f.name] = bad[0]; changed = True
+    n = 0
+    for f, (acc, calls, X, ens) in info.items():
+        c = sc.canon(f)
+        if not acc and not any(g.name in needs for cc in calls for g in callees(f, cc)): continue
+        if f.name in scan: continue
+        n += 1
+        if f.name not in needs:
+            rep.ok('C11.R8', '%s %s: every access of yy_buffer_stack[..] (direct or in a callee) lies behind yyensure_buffer_stack() or a test that the stack / current buffer exists' % (v.name, c))
+        elif f.linkage == 'internal' or c in INTERNAL:
+            # a static function: its callers carry the obligation (they are in `needs` or protect the call)
+            rep.ok('C11.R8', '%s %s (static): requires an existing stack; every caller outside the scan context provides it or is reported' % (v.name, c))
+        else:
+            x = needs[f.name]
+            via = ''
+            if x.op in ('call', 'invoke'): via = ' (in the callee %s)' % sc.callee(x)
+            rep.fail('C11.R8', sc.key('C11.R8', c, 'stack-may-not-exist'), where(x),
+                     '%s indexes yy_buffer_stack[..]%s on a path on which nothing guarantees that the buffer stack exists: the function may be called before the first '
+                     'yylex() / yyensure_buffer_stack() (the stack pointer is NULL then), and this access is neither behind a test of the stack or of yy_current_buffer() '
+                     'nor behind a call that creates the stack [variant %s]' % (c, via, v.name), variant=v.describe(),
+                     replay_input='b1 = yy_create_buffer(f, YY_BUF_SIZE); b2 = yy_create_buffer(g, YY_BUF_SIZE); yy_delete_buffer(b2);  -- before any yylex(): must not crash')
+    return n
+
 # ---------------------------------------------------------------- driver
 
 def run(ctx):
     rep = ctx.rep
     vs = ctx.variants()
     rep.require(len(vs) >= 100, 'only %d scanner variants compiled to IR' % len(vs))
-    backs = set(); backs6 = set(); c_scan = 0
+    backs = set(); backs6 = set(); backs7 = set(); backs8 = set(); c_scan = 0
     for v in vs:
         sc = scanner(v)
         if r1(ctx, sc): backs.add(v.backend)
@@ -502,6 +790,8 @@ def run(ctx):
         r4(ctx, sc)
         r5(ctx, sc)
         if r6(ctx, sc): backs6.add(v.backend)
+        if r7(ctx, sc): backs7.add(v.backend)
+        if r8(ctx, sc): backs8.add(v.backend)
     rep.require(backs6 >= {'nr', 'r', 'cxx', 'c99', 'go'}, 'C11.R6 ran only on back ends %s' % sorted(backs6))
     rep.require(backs >= {'nr', 'r', 'cxx', 'c99', 'go'}, 'C11.R1 ran only on back ends %s' % sorted(backs))
     rep.setcount('variants_analysed', len(vs))
@@ -511,6 +801,10 @@ def run(ctx):
     rep.floor('C11.R3', 90, 'yy_scan_bytes of >=90 C variants')
     rep.floor('C11.R5', 100, 'yyensure_buffer_stack of >=100 variants')
     rep.floor('C11.R6', 100, 'the one increment of yy_buffer_stack_top in yypush_buffer_state of >=100 variants')
+    rep.require(backs7 >= {'nr', 'r', 'cxx', 'c99', 'go'}, 'C11.R7 ran only on back ends %s' % sorted(backs7))
+    rep.require(backs8 >= {'nr', 'r', 'cxx', 'c99', 'go'}, 'C11.R8 ran only on back ends %s' % sorted(backs8))
+    rep.floor('C11.R7', 2000, '>=10 fields read by the scanner x (yy_create_buffer + yy_scan_buffer) in >=100 variants')
+    rep.floor('C11.R8', 1000, '>=10 functions outside the scan context that touch yy_buffer_stack[..] (directly or through a callee) in >=100 variants')
     rep.floor('C11.R4', 850, 'locality + 6 stores + conditional reload in yy_flush_buffer of >=110 variants')
     rep.undecided += ['no loss, duplication or reordering of input across arbitrary histories of switches (value-level)',
                       'that user code does not keep pointers into a buffer across a switch',
